@@ -255,14 +255,26 @@ def _orm_columns(t):
     return out - {"owner", "org", "region", "items", "parts", "tags", "owners"}
 
 
+def _foldable(t):
+    """Literals an ORM may legitimately fold away: operands of a null test against a literal."""
+    out = []
+    for x in walk(t):
+        if x[0] == "cmp" and ("lit", "null", "") in (x[2], x[3]):
+            other = x[3] if x[2] == ("lit", "null", "") else x[2]
+            if not any(y[0] in ("id", "path", "lambda") for y in walk(other)):
+                out += text_leaves(other)
+    return out
+
+
 def _orm_complete(t, sql, params):
     ptxt = [str(p) for p in params]
     low = sql.lower()
+    foldable = _foldable(t)
     for f in _orm_columns(t):
         if f.lower() not in low:
             return "field %r not in %s" % (f, sql)
     for kind, val in text_leaves(t):
-        if kind == "field":
+        if kind == "field" or (kind, val) in foldable:
             continue
         if kind == "num":
             if not any(_numeq(p, val) for p in params) and not re.search(r"(?<![\d.])%s(?![\d.])" % re.escape(_numtxt(val)), sql):
